@@ -270,7 +270,10 @@ def parse_field_value(
 
 
 def parse_field(name: str, definition, context: ParseContext) -> FieldFactory:
-    assert name, name
+    if not name:
+        raise exc.DataGenSyntaxError(
+            "Field names should not be empty", **context.line_num()
+        )
     return FieldFactory(
         name,
         parse_field_value(name, definition, context),
